@@ -240,7 +240,48 @@ def _stored_values(fn, decl):
             o = skip_copies(n.get("obj")) if isinstance(n.get("obj"), dict) else {}
             if o.get("k") == "ref" and o.get("decl") == decl:
                 out += list(n.get("args", [])) or [n]
+        if n.get("k") == "call" and n.get("args") and "(" in (n.get("sig") or ""):
+            # handed to a callee as a pointer / reference to non-const (file.read(buffer, n), memcpy(buffer, ...)): the callee writes it
+            ptypes = _param_types(n["sig"])
+            args = n["args"][1:] if n.get("ck") == "operator" and len(n["args"]) == len(ptypes) + 1 else n["args"]
+            for a, pt in zip(args, ptypes):
+                if not _writable_param(pt):
+                    continue
+                base = skip_copies(a)
+                while isinstance(base, dict) and (base.get("k") == "subscript" or (base.get("k") == "unop" and base.get("op") == "&") or base.get("k") == "cast"):
+                    base = skip_copies(base.get("base") if base.get("k") == "subscript" else base.get("e"))
+                if isinstance(base, dict) and base.get("k") == "ref" and base.get("decl") == decl:
+                    out.append(n)
     return out
+
+
+def _param_types(sig):
+    inner = sig[sig.index("(") + 1:sig.rindex(")")] if ")" in sig else ""
+    out, depth, cur = [], 0, ""
+    for ch in inner:
+        if ch in "<([":
+            depth += 1
+        elif ch in ">)]":
+            depth -= 1
+        if ch == "," and depth == 0:
+            out.append(cur.strip())
+            cur = ""
+        else:
+            cur += ch
+    if cur.strip():
+        out.append(cur.strip())
+    return out
+
+
+def _writable_param(t):
+    """T * / T & with a non-const pointee (T && and by-value parameters receive a copy or a temporary)"""
+    t = t.strip()
+    if t.endswith("&&"):
+        return False
+    if not (t.endswith("*") or t.endswith("&")):
+        return False
+    pointee = t[:-1].strip()
+    return not (pointee.startswith("const ") or pointee.endswith(" const") or " const" in pointee.split("<")[0] or pointee.split("<")[0].startswith("const"))
 
 
 def _constant_value(fn, e, depth=0, seen=None):
@@ -271,13 +312,14 @@ def _constant_value(fn, e, depth=0, seen=None):
     return True
 
 
-def shared_static_state(ck, F, rid, what_lock):
+def shared_static_state(ck, F, rid, what_lock, roots=None, min_roots=25, what="handler code"):
     """static-storage variables written by code that runs as part of a handler (process / format / filter / send / attributes / flush and
     everything they reach).  Such a variable is shared by every instance of the handler and by every pipeline, i.e. it lies outside
     the one lock a pipeline runs under; it is accepted only as a cache of constants."""
     subs = F.subclasses("QtLogger::Handler") | {"QtLogger::Handler"}
-    roots = [f for f in F.fns.values() if f.body is not None and strip_tmpl(f.cls or "") in subs and f.name.split("::")[-1] in ("process", "format", "filter", "send", "attributes", "flush")]
-    ck.require(len(roots) >= 25, "only %d handler entry points found (25 confirmed by hand)" % len(roots))
+    if roots is None:
+        roots = [f for f in F.fns.values() if f.body is not None and strip_tmpl(f.cls or "") in subs and f.name.split("::")[-1] in ("process", "format", "filter", "send", "attributes", "flush")]
+    ck.require(len(roots) >= min_roots, "only %d entry points found for the static-state rule (%d confirmed by hand)" % (len(roots), min_roots))
     reach = F.reachable_from(roots, virtual=True)
     for f in list(F.fns.values()):
         if f.lambda_of in reach:
@@ -310,13 +352,13 @@ def shared_static_state(ck, F, rid, what_lock):
         if state:
             bad += 1
             f0, w0 = state[0]
-            ck.ob(rid, where, False, "%s is a static variable written by handler code (%s stores %s): it is shared by every instance and every pipeline, so two pipelines — each correctly under %s — "
-                  "read and write it at the same time, and one pipeline's messages see values left by another's" % (gv.get("name"), f0.name.split("QtLogger::")[-1], describe(w0)[:40], what_lock),
+            ck.ob(rid, where, False, "%s is a static variable written by %s (%s stores %s): it is shared by every instance and every pipeline, so two pipelines — each correctly under %s — "
+                  "read and write it at the same time, and one pipeline's messages see values left by another's" % (gv.get("name"), what, f0.name.split("QtLogger::")[-1], describe(w0)[:40], what_lock),
                   key="static-state|%s" % (gv.get("name") or "").split("::")[-1])
         else:
             ck.ob(rid, where, True, "%s: static, but only ever given values computed from constants (a cache)" % gv.get("name"), key="static-state|%s" % (gv.get("name") or "").split("::")[-1])
-    ck.ob(rid, "(handler code)", not bad, "%d functions reachable from the %d handler entry points; %d static variables written there, none carrying state" % (len(reach), len(roots), n_static) if not bad else
-          "%d static variable(s) of handler code carry state across pipelines" % bad, key="static-state|summary")
+    ck.ob(rid, "(%s)" % what, not bad, "%d functions reachable from the %d entry points of the %s; %d static variables written there, none carrying state" % (len(reach), len(roots), what, n_static) if not bad else
+          "%d static variable(s) of the %s carry state across pipelines" % (bad, what), key="static-state|summary")
 
 
 DEFERRED = {"connect": ("QObject",), "singleShot": ("QTimer",), "callOnTimeout": ("QTimer",), "invokeMethod": ("QMetaObject",), "run": ("QtConcurrent",), "start": ("QThreadPool", "QTimer"),
